@@ -7,6 +7,7 @@ import (
 	"os"
 	"regexp"
 	"runtime/debug"
+	"runtime/pprof"
 	"sort"
 	"strings"
 	"sync"
@@ -37,7 +38,8 @@ func main() {
 type runCfg struct {
 	repo, verif, pkg, harness, match, out, solver, solverLog string
 	workers, timeoutMS, maxInstr                              int
-	trace, mapReverse                                         bool
+	trace, mapReverse, thorough                               bool
+	deadline                                                  int
 }
 
 func cmdRun(args []string) int {
@@ -55,7 +57,15 @@ func cmdRun(args []string) int {
 	fs.IntVar(&c.timeoutMS, "timeout", 60000, "per query timeout ms")
 	fs.IntVar(&c.maxInstr, "maxinstr", 3000000, "instruction budget per path")
 	fs.BoolVar(&c.mapReverse, "mapreverse", false, "reverse map iteration order")
+	fs.IntVar(&c.deadline, "deadline", 120, "per harness deadline in seconds")
+	fs.BoolVar(&c.thorough, "thorough", false, "thorough tier shapes")
+	prof := fs.String("cpuprofile", "", "write cpu profile")
 	fs.Parse(args)
+	if *prof != "" {
+		f, _ := os.Create(*prof)
+		pprof.StartCPUProfile(f)
+		defer pprof.StopCPUProfile()
+	}
 	results, err := runHarnesses(c, nil)
 	if err != nil {
 		fmt.Fprintln(os.Stderr, "error:", err)
@@ -143,6 +153,8 @@ func runHarnesses(c runCfg, tweak harnessOpts) ([]*interp.Result, error) {
 			opts.TimeoutMS = c.timeoutMS
 			opts.MaxInstr = c.maxInstr
 			opts.MapReverse = c.mapReverse
+			opts.Thorough = c.thorough
+			opts.Deadline = time.Now().Add(time.Duration(c.deadline) * time.Second)
 			if c.solverLog != "" {
 				opts.SolverLog = c.solverLog + "." + f.Name() + ".smt2"
 			}
